@@ -7,6 +7,7 @@ import (
 	"fmt"
 	"math/rand"
 	"os"
+	"path/filepath"
 	"regexp"
 	"strings"
 	"sync"
@@ -148,7 +149,18 @@ func c05Families(ls *sysListServer) []c05Family {
 			}
 			n++
 			if i%2 == 1 {
-				if s := c05Call(in, "POST", "/control/filtering/remove_url", map[string]any{"url": ls.URL(path), "whitelist": wl}, 200, 400); s != "" {
+				if i%6 == 5 {
+					// A removal whose file cannot be moved away: the name the
+					// product renames a removed list to is occupied by a
+					// non-empty directory.  The call may fail; the server
+					// must go on serving and saving.
+					if fs, _ := filepath.Glob(filepath.Join(in.Dir, "data", "filters", "*.txt")); len(fs) > 0 {
+						for _, f := range fs {
+							_ = os.MkdirAll(filepath.Join(f+".old", "occupied"), 0o755)
+						}
+					}
+				}
+				if s := c05Call(in, "POST", "/control/filtering/remove_url", map[string]any{"url": ls.URL(path), "whitelist": wl}, 200, 400, 500); s != "" {
 					f = append(f, s)
 				}
 				n++
